@@ -193,6 +193,45 @@ def check_config(acc, h, cfg, layer, digest=None, with_decoys=False):
     if used - set(['builtin', 'next']):
         acc.add('nontrivial')
     acc.outcome('%s:%s' % (layer, '+'.join(sorted(used)) or 'noparams'))
+    check_rebound(acc, h, cfg, layer)
+
+
+def check_rebound(acc, h, cfg, layer):
+    """History: the same Route / embedded application object is bound a second time, into an application that lacks
+    the first one's resources.  Nothing of the first binding may reach the functions of the second."""
+    import copy
+    key = 'outer_res' if h.has_outer else 'app_res'
+    if not cfg.get(key):
+        return
+    cfg2 = copy.deepcopy(cfg)
+    cfg2[key] = []
+    info2 = B.analyse_all(cfg2)
+    case = {'cfg': cfg, 'layer': layer, 'rebound': True}
+    try:
+        _, app2 = h.rebind_poorer(cfg, error_handler=c01.reraiser())
+        built = None
+    except Exception as e:
+        built = e
+    acc.transitions += 1
+    acc.add('rebound')
+    if info2['verdict'] == 'reject':
+        if built is None:
+            acc.violation('C02:rebound:accepted-unsatisfiable', 'bound a second time, into an application without the '
+                          'resources %r, the route was accepted although %s' % (cfg[key], info2.get('why')), case)
+        return
+    if built is not None:
+        return      # C01's business
+    res, trace = chain.run_request(h, h.path, 'GET')
+    acc.transitions += 1
+    if res.raised is not None:
+        acc.violation('C02:rebound:request-raised:%s' % type(res.raised).__name__,
+                      'request to the second application raised %r' % (res.raised,), case)
+        return
+    bad, seen = chain.verify_wiring(h, info2['wiring']['route'], trace, app2)
+    acc.validated += sum(len(ev[2]) for ev in trace if ev[0] == 'enter')
+    for kind, msg in bad:
+        acc.violation('C02:rebound:%s' % kind, '%s (second binding of the same route object, without resources %r)'
+                      % (msg, cfg[key]), case)
 
 
 DECOY_LAYERS = ('L1a-1', 'L2-1', 'LB')
@@ -250,7 +289,20 @@ def finish(tier, merged, results):
                          'note': 'states = accepted configurations; traces_validated = (function, parameter) pairs compared'}}
 
 
+def replay_rebound(case):
+    common.setup_repo()
+    acc = common.Acc()
+    h = chain.Harness()
+    h.build(case['cfg'], error_handler=c01.reraiser())
+    check_rebound(acc, h, case['cfg'], case.get('layer', 'replay'))
+    if acc.violations:
+        return False, acc.violations[0]['desc']
+    return True, 'ok'
+
+
 def replay(case):
+    if case.get('rebound'):
+        return replay_rebound(case)
     common.setup_repo()
     acc = common.Acc()
     h = chain.Harness()
